@@ -44,12 +44,13 @@ func subsetGlyphs(f *sfnt.Font) []glyph.ID {
 	return res
 }
 
-var layoutTexts = []string{"ABC fi fl", "AB BA AC fifl", "Hello, World! 0123", "ffi AVATAR To."}
+var layoutTexts = []string{"ABC fi fl", "AB BA AC fifl", "Hello, World! 0123", "ffi AVATAR To.", "ABCDT BAcVo abc abd abe ooTe"}
 
 // a glyph sequence for gtab.Context.Apply
 func applySeq(f *sfnt.Font, variant int) []glyph.Info {
 	n := f.NumGlyphs()
-	base := [][]int{{2, 3, 6, 7, 6, 8, 2, 4, 3, 2, 11, 5}, {6, 7, 7, 6, 8, 8, 2, 3, 2, 3}, {36, 37, 73, 76, 73, 79, 3, 36, 57}}[variant%3]
+	// (glyphs 2..5 = A..D, 23 T, 24 V, 25 o, 13..16 = a..d in the constructed fonts)
+	base := [][]int{{2, 3, 6, 7, 6, 8, 2, 4, 3, 2, 11, 5}, {2, 3, 4, 5, 23, 3, 2, 15, 24, 25, 13, 14, 15, 13, 14, 16}, {36, 37, 73, 76, 73, 79, 3, 36, 57}}[variant%3]
 	var seq []glyph.Info
 	for _, g := range base {
 		if g < n {
